@@ -74,6 +74,8 @@ def run(tier):
         c.mc_pass('BinCounts', 'MC_BinCounts_design2_t.cfg', actions_required=acts, workers=8, timeout=1500)
     c.mc_negative('BinCounts', 'MC_BinCounts_impl_plain_update_q.cfg', expect_inv=['Inv_C12_Matrix', 'Inv_C12_Invariant', 'Inv_C12_Total'],
                   workers=4)
+    c.mc_negative('BinCounts', 'MC_BinCounts_impl_r1only_read2_q.cfg', expect_inv=['Inv_C12_Matrix', 'Inv_C12_Invariant', 'Inv_C12_Total'],
+                  workers=4)
     c.mc_negative('BinCounts', 'MC_BinCounts_impl_kwargs_none_q.cfg', expect_inv=['Inv_C12_Total_NoRaise'], workers=4)
     c.mc_negative('BinCounts', 'MC_BinCounts_impl_own_fetch_q.cfg', expect_inv=['Inv_C12_Matrix', 'Inv_C12_Invariant', 'Inv_C12_Total'],
                   workers=4)
@@ -148,7 +150,8 @@ def run(tier):
         'seeded shuffle; a subset of runs uses the real pool with 1/2/4 workers',
         'get_binned_counts has no mapping-quality / mappability argument: records excluded only by those clauses may or may '
         'not be counted; user-supplied adjacent regions (D15) are outside the quantifier of C12 and reported as observations',
-        'all records of the synthetic BAMs are paired (read 1 / read 2 flags set)']
+        'unpaired, read-2-only and unmapped records are never read-1 records for obtain_counts; get_binned_counts may or may '
+        'not count an unpaired record (it feeds single-end reads through the R1 slot)']
     sig = set((e['bam'].get('source'), e['bam'].get('bam_index'), json.dumps(e.get('cfg', e.get('region_list')), sort_keys=True),
                e.get('pool'), e.get('order_seed')) for e in judged)
     return c.finish(rule='one execution = one call of obtain_counts(generate_commands(..)) or get_binned_counts on one synthetic '
